@@ -143,6 +143,28 @@ def band_lines(rng, g, n):
     return lines
 
 
+def lift_lines(rng, g, n):
+    """lifts SO2 -> SO3 / SE2 -> SE3 (and back) of elements at generic angles, at 0, at quarter turns and in a
+    log-uniform band next to the half turn (where 1 + cos cancels)"""
+    lines = ["reset"]
+    off = {0: 0, 2: 2}[g]
+    for i in range(n):
+        c = rand_coeffs(rng, g)
+        kind = i % 4
+        if kind == 0:
+            th = rng.uniform(-math.pi, math.pi)
+        elif kind == 1:
+            th = rng.choice([0.0, math.pi / 2, -math.pi / 2, math.pi, -math.pi])
+        else:
+            th = rng.choice([-1, 1]) * (math.pi - 10 ** rng.uniform(-8.0, -2.0))
+        z = [math.sin(th), math.cos(th)]
+        n2 = math.hypot(*z)
+        c[off], c[off + 1] = z[0] / n2, z[1] / n2
+        lines.append(f"sete 0 {hexs(c)}")
+        lines.append("lift 1 0")
+    return lines
+
+
 def ode_lines(rng, g, quick):
     lines = ["reset", f"sete 0 {hexs(rand_coeffs(rng, g))}", f"sett 0 {hexs(rand_tangent(rng, g, 0.7))}"]
     for s in STEPPERS:
@@ -184,6 +206,8 @@ def check(prop, tier, seed, replay=None):
                 jobs.append((g, chain_lines(rng, g, N, kind), every, {"kind": f"chain {kind} x{N}"}))
             jobs.append((g, ode_lines(rng, g, quick), 1, {"kind": "odeint"}))
             jobs.append((g, band_lines(rng, g, 24 if quick else 300), 1, {"kind": "band above the small-angle switch"}))
+            if g in (0, 2):
+                jobs.append((g, lift_lines(rng, g, 24 if quick else 400), 1, {"kind": "lifts and projections"}))
         oc.extra["tlc_programs"] = len(uniq)
     exes = {g: e for g, e in zip(sorted({j[0] for j in jobs}),
                                  V.build_many([("machine.cpp", [f"VH_GROUP={g}", "VH_SCALAR=double"]) for g in sorted({j[0] for j in jobs})]))}
